@@ -8,7 +8,7 @@ _NOTE = ('Trusted base: the /verif shims for GLib (sim loop calibrated against G
 CLAIMED = {
     'C01': dict(
         technique='runtime history monitor at the D-Bus boundary of two real TCPCL endpoints in a simulated network, offline conservation/order/exactly-once checker with unique payloads; wire automaton as second witness',
-        text='Exploration: a directed corpus (length classes around the negotiated segment size, MRU 1, above CHUNK_SIZE, 64 KiB / 1 MiB, tiny pipes, one-octet delivery) x scheduling policies, then hundreds (thorough: thousands) of seeded random scenarios with send calls before start, during negotiation and between arbitrary callbacks; chunking, delay and back-pressure are schedule choices. Checked: popped sequence == queued sequence, finish order, success-after-receipt by logical clock, stuck-at-quiescence. Evidence reports distinct dispatch-sequence hashes and abstract states.',
+        text='Exploration: a directed corpus (length classes around the negotiated segment size, MRU 1, above CHUNK_SIZE, 64 KiB / 1 MiB, tiny pipes, one-octet delivery) x scheduling policies, then hundreds (thorough: thousands) of seeded random scenarios with send calls before start, during negotiation and between arbitrary callbacks; chunking, delay and back-pressure are schedule choices. Checked: popped sequence == queued sequence, finish order, success-after-receipt by logical clock, stuck-at-quiescence. Evidence reports distinct dispatch-sequence hashes and abstract states. Also 13-104 bundles waiting in the receive queue at once (ids of one to three digits), drained in listed order.',
         note=_NOTE + ' Liveness is restated as: quiescent world with an unfinished transfer is a violation; exhausted budget is inconclusive.',
     ),
     'C04': dict(
@@ -38,7 +38,7 @@ CLAIMED = {
     ),
     'C18': dict(
         technique='runtime monitor: every signal emission and method return checked against its declared signature by a model of dbus-python marshalling calibrated on the real library; shadow-model invariant evaluated after every event-loop callback and boundary call',
-        text='Exploration: seeded two-endpoint scenarios with boundary calls (send, pop, queue and idle queries, terminate) interleaved at random scheduler steps and the queue/idle invariant evaluated after EVERY callback; scripted-peer refusal runs so that every contact signal is emitted; two real tcpcl.agent.Agent objects over the simulated listen/accept/connect path with shutdown() at 0-3 contacts in mixed states; the real UDPCL agent with benign transfers and hostile polling items.',
+        text='Exploration: seeded two-endpoint scenarios with boundary calls (send, pop, queue and idle queries, terminate) interleaved at random scheduler steps and the queue/idle invariant evaluated after EVERY callback; scripted-peer refusal runs so that every contact signal is emitted; two real tcpcl.agent.Agent objects over the simulated listen/accept/connect path with shutdown() at 0-3 contacts in mixed states; the real UDPCL agent with benign transfers and hostile polling items. Signals emitted on an object that has left the bus are ignored (dbus-python sends nothing) and boundary calls to such an object get UnknownObject; the UDPCL agent is fed whole and segmented bundles whose peer-chosen transfer ids coincide with local receive ids (announced ids distinct, queue == announced, pops return each bundle once).',
         note=_NOTE + ' The marshalling model is calibrated on 857 (signature, value) rows produced by real dbus-python 1.3.2.',
     ),
     'C15': dict(
@@ -48,42 +48,42 @@ CLAIMED = {
     ),
     'C17': dict(
         technique='runtime monitor of loop exception records, decoded wire output, receive queue and own-transfer progress of a real endpoint driven by a scripted adversarial peer, judged by a peer-model automaton',
-        text='Exploration with exhaustive sub-spaces: in each of six endpoint states and both roles, all sequences of length <= 2 (thorough <= 3 over a reduced alphabet) of ~16 state-relative messages (segments, ACKs, refusals, SESS_TERM, unknown types, bad contact headers), then seeded random sequences up to length 12; afterwards the scripted peer acknowledges honestly and the endpoint\'s own transfers must complete.',
+        text='Exploration with exhaustive sub-spaces: in each of six endpoint states and both roles, all sequences of length <= 2 (thorough <= 3 over a reduced alphabet) of ~16 state-relative messages (segments, ACKs, refusals, SESS_TERM, unknown types, bad contact headers), then seeded random sequences up to length 12; afterwards the scripted peer acknowledges honestly and the endpoint\'s own transfers must complete. The alphabet includes unknown type codes 0x00/0x08/0x0f/0xff and bad contact headers followed by a good header (and SESS_INIT) in the same write.',
         note=_NOTE,
     ),
     'C02': dict(
         technique='runtime differential monitor: real scapy-CBOR encoder/decoder vs an independent RFC 9171 decoder/encoder/validator with a framing-preserving CBOR walker',
-        text='Exploration: a directed boundary corpus plus ~12k (quick) / ~320k (thorough) seeded random bundles, each run through three differentials (values->real encoder->independent decoder and validator; real decode and byte-identical re-encode; independent encoder->real decoder, typed block data and status reports included) and a byte-for-byte comparison of the two encoders.',
+        text='Exploration: a directed boundary corpus plus ~12k (quick) / ~320k (thorough) seeded random bundles, each run through three differentials (values->real encoder->independent decoder and validator; real decode and byte-identical re-encode; independent encoder->real decoder, typed block data and status reports included) and a byte-for-byte comparison of the two encoders. The directed corpus adds 21-300 canonical blocks, known block types with data of the wrong shape (kept opaque), other administrative record types with falsy contents, every reason code 0-19/255/256/2^32, and fragments of administrative records.',
         note=_NOTE,
     ),
     'C08': dict(
         technique='runtime monitor at the CL and application boundaries of the real BP agent under exhaustive single-bit and sampled burst corruption, judged by an independent bitwise CRC and RFC 9171 decoder',
-        text='Exploration with an exhaustive sub-space: every single-bit flip of 26 base bundles (all CRC-type assignments, block types 1/6/7/10/192/200) and seeded bursts <= CRC width inside protected blocks; a mutant that alters a CRC-protected block and is invalid for the independent decoder must leave no trace (seen-set, application observer, CL output) in a fresh real agent. Output side: CRC fields of every byte string handed to the CL by local sends, forwards, fragmentation and status reports are recomputed on raw block spans.',
+        text='Exploration with an exhaustive sub-space: every single-bit flip of 26 base bundles (all CRC-type assignments, block types 1/6/7/10/192/200) and seeded bursts <= CRC width inside protected blocks; a mutant that alters a CRC-protected block and is invalid for the independent decoder must leave no trace (seen-set, application observer, CL output) in a fresh real agent. Output side: CRC fields of every byte string handed to the CL by local sends, forwards, fragmentation and status reports are recomputed on raw block spans. Thorough also substitutes every octet value at every position of CRC-protected blocks (all bursts of up to 8 bits within an octet) for a subset of base bundles, including status-report bundles.',
         note=_NOTE + ' Known finding: uint 0/1 -> CBOR false/true bursts pass because decode coerces bool to int (pinned by a unit test).',
     ),
     'C05': dict(
         technique='runtime monitor at the CL boundary of the real BP agent per send request, judged by an independent decoder, an integer tiling model and a no-MTU reference send',
-        text='Exploration, boundary-directed: per header configuration the MTU walks (non-payload size + k) so fragment offsets and lengths cross the 23/24 and 255/256 head boundaries within tens of fragments; payload 0..300 and 65530..70000; both origins (locally built, received-and-forwarded); integrity policy on/off; do-not-fragment, existing fragments and fitting bundles must equal the no-MTU send byte for byte; every output must decode, be <= MTU, tile the payload exactly and carry the right identity and extension blocks.',
+        text='Exploration, boundary-directed: per header configuration the MTU walks (non-payload size + k) so fragment offsets and lengths cross the 23/24 and 255/256 head boundaries within tens of fragments; payload 0..300 and 65530..70000; both origins (locally built, received-and-forwarded); integrity policy on/off; do-not-fragment, existing fragments and fitting bundles must equal the no-MTU send byte for byte; every output must decode, be <= MTU, tile the payload exactly and carry the right identity and extension blocks. Forwarded bundles from a source without a clock (creation time 0, lifetime 0, Bundle Age block) are fragmented as well.',
         note=_NOTE,
     ),
     'C10': dict(
         technique='runtime history monitor: application and CL observers plus seen-table peek after every receive, against an executable reference model of the receive policy',
-        text='Exploration: seeded histories (1-40 bundles) with exact repeats, one-component look-alikes, fragments, own-source and administrative-endpoint bundles over random routing tables of overlapping anchored patterns; after each receive the observed deliveries, forwards, reports and seen-set are compared with the model.',
+        text='Exploration: seeded histories (1-40 bundles) with exact repeats, one-component look-alikes, fragments, own-source and administrative-endpoint bundles over random routing tables of overlapping anchored patterns; after each receive the observed deliveries, forwards, reports and seen-set are compared with the model. Histories also contain copies damaged in transit (CRC failure) arriving before the intact copy: dropped without trace.',
         note=_NOTE,
     ),
     'C03': dict(
         technique='runtime differential monitor: integrity blocks produced by the real source agent verified by an independent AAD/COSE implementation, and every single-bit flip / field edit of the encoding judged at a real receiver against the covered octet spans computed by an independent CBOR walker',
-        text='Exploration with an exhaustive sub-space: for COSE_Mac0 (HMAC-256/384/512) and COSE_Sign1 bundles from the real source EVERY single-bit flip of the encoding (sampled for large ones) is classified by location (covered: primary block, target metadata/data, security source, scope/protected parameters, protected header, tag; outside: other blocks) and pushed through a real receiver; field-level edits with CRCs recomputed; oracle-built BIBs with scopes adding other blocks, the security block itself and additional protected parameters; wrong and missing keys. Covered alteration delivered = violation; outside alteration rejected = violation; agent BIB not verifying independently = violation.',
+        text='Exploration with an exhaustive sub-space: for COSE_Mac0 (HMAC-256/384/512) and COSE_Sign1 bundles from the real source EVERY single-bit flip of the encoding (sampled for large ones) is classified by location (covered: primary block, target metadata/data, security source, scope/protected parameters, protected header, tag; outside: other blocks) and pushed through a real receiver; field-level edits with CRCs recomputed; oracle-built BIBs with scopes adding other blocks, the security block itself and additional protected parameters; wrong and missing keys. Covered alteration delivered = violation; outside alteration rejected = violation; agent BIB not verifying independently = violation. Multi-target blocks: the result of one target removed and that target altered.',
         note=_NOTE + ' COSE_Mac with a wrapped key and x5t-only signing cannot run with the upstream pycose 1.1.0 installed here (source raises); a mutant that re-types the security block itself carries no obligation.',
     ),
     'C12': dict(
         technique='runtime monitor at the application step of the receive chain and the CL boundary (status report reason) of a real receiver, judged by an independent verify-all oracle over malformation classes built by an independent encoder',
-        text='Exploration over the product of 21 security-block classes (valid, none, wrong tag, unknown key id, altered target/primary, unknown context, missing target, duplicate parameters/results, count mismatch, 0/2 results, garbage/wrong-type/truncated COSE, non-ASB data, bad source EID, scope naming a missing block, two blocks with the first/second/neither failing) x BIB/BCB x key store {all, wrong, none} x accept-after-verify x deletion report requested; fail => no delivery, no escaping exception, report with deleted + security reason; ok/none => delivered with the expected payload and accepted blocks removed.',
+        text='Exploration over the product of 21 security-block classes (valid, none, wrong tag, unknown key id, altered target/primary, unknown context, missing target, duplicate parameters/results, count mismatch, 0/2 results, garbage/wrong-type/truncated COSE, non-ASB data, bad source EID, scope naming a missing block, two blocks with the first/second/neither failing) x BIB/BCB x key store {all, wrong, none} x accept-after-verify x deletion report requested; fail => no delivery, no escaping exception, report with deleted + security reason; ok/none => delivered with the expected payload and accepted blocks removed. Also valid blocks whose AAD scope binds metadata and data (flags 3) of the target or another block, and the same parameter id twice with another parameter in between.',
         note=_NOTE,
     ),
     'C16': dict(
         technique='runtime differential monitor: octets transmitted by the real source agent decrypted and re-encrypted by an independent AAD/Enc_structure/AES-GCM/key-wrap implementation; payload at the application step of a real receiver; every single-bit flip judged against covered spans and the independent verdict',
-        text='Exploration with an exhaustive sub-space: plaintext lengths 0..1000 across AES block boundaries x COSE_Encrypt0 A256GCM/A128GCM and COSE_Encrypt with A256KW x fixed/generated IVs x CRC types and extension blocks: wire data == independent AES-GCM encryption, no plaintext (or content key) in the transmitted octets, receiver with the key recovers exactly the plaintext (BCB removed); EVERY single-bit flip of the encoding (sampled for large bundles) and field-level edits (ciphertext, GCM tag, IV, key id, wrapped key, algorithm, primary fields, target flags, security source, scope) through a real receiver with accept on and off: no delivery and no plaintext at the application step; wrong and missing keys.',
+        text='Exploration with an exhaustive sub-space: plaintext lengths 0..1000 across AES block boundaries x COSE_Encrypt0 A256GCM/A128GCM and COSE_Encrypt with A256KW x fixed/generated IVs x CRC types and extension blocks: wire data == independent AES-GCM encryption, no plaintext (or content key) in the transmitted octets, receiver with the key recovers exactly the plaintext (BCB removed); EVERY single-bit flip of the encoding (sampled for large bundles) and field-level edits (ciphertext, GCM tag, IV, key id, wrapped key, algorithm, primary fields, target flags, security source, scope) through a real receiver with accept on and off: no delivery and no plaintext at the application step; wrong and missing keys. Also: two targets per block, oracle-built COSE_Encrypt with 1-3 recipients (usable one first/last/middle/none), and status reports generated and encrypted by the real agent.',
         note=_NOTE + ' Exceptions thrown by the bundle decoder for mutated octets are C08 material and are not judged here.',
     ),
     'C11': dict(
